@@ -37,7 +37,7 @@ var Prop = &engine.Prop{
 		"keys are comparable Hashed2Int values (mux.Bytes cannot be a Go map key)",
 		"the value a callback returns is the value the store now holds",
 	},
-	ShardsQuick: 8, ShardsThorough: 32,
+	ShardsQuick: 8, ShardsThorough: 16,
 	Setup: func(c *engine.Ctx) {
 		// the executors log every shutdown at debug level on stdout: silence the default logger
 		lg := ulog.NewSimpleLogger("error")
